@@ -5,8 +5,8 @@ the SAME symbolic numbers; on every joint path the two candidate lists must be e
 strings, for all number values (byte-wise equality of terms proved by the solver).
 Covered rewrites: letter case of registers / size keywords, white space, optional '%', 'st' vs 'st(0)',
 term order inside brackets, displacement outside brackets, '-n' vs '+(2^32-n)', n vs n + k*2^32, and the
-Intel <-> AT&T transliteration.  Not covered: decimal vs hexadecimal spelling of a number (the digit string ->
-integer step is the one place where the symbolic number is substituted).
+Intel <-> AT&T transliteration, and the numeric base: the placeholder numeral of a symbolic number is also spelled in hexadecimal
+(0x / 0X prefix, lower / upper case digits), so the real lexer's own base handling runs before the placeholder is mapped back.
 """
 import random
 import sys
@@ -77,6 +77,17 @@ def pairs(tier):
                 P.append(('att-index-only-%s-%d' % (i, sc), '%s edx, %s[%s*%d+{0}]' % (mn, sz, i, sc), False, '%s {0}(,%%%s,%d), %%edx' % (att, i, sc), True, None))
         P.append(('att-two-regs', '%s edx, %s[ebx+esi]' % (mn, sz), False, '%s (%%ebx,%%esi), %%edx' % att, True, None))
         P.append(('att-two-same', '%s edx, %s[ebx+ebx]' % (mn, sz), False, '%s (%%ebx,%%ebx), %%edx' % att, True, None))
+    # numeric base: the placeholder numeral spelled in hexadecimal goes through the real lexer's own conversion (lower / upper case
+    # prefix and digits) before it is mapped back to the symbolic number
+    for tag, spec in (('hex', '{%d:#x}'), ('hex-upper', '{%d:#X}'), ('hex-mixed', '0x{%d:X}'), ('hex-upper-prefix', '0X{%d:x}')):
+        P += [
+            ('%s-imm' % tag, 'mov eax, {0}', False, 'mov eax, ' + spec % 0, False, None),
+            ('%s-disp' % tag, 'mov eax, DWORD PTR [ebx+{0}]', False, 'mov eax, DWORD PTR [ebx+%s]' % (spec % 0), False, None),
+            ('%s-outside' % tag, 'mov eax, DWORD PTR [ebx+{0}]', False, 'mov eax, DWORD PTR %s[ebx]' % (spec % 0), False, None),
+            ('%s-imm8' % tag, 'add cl, {0}', False, 'add cl, ' + spec % 0, False, None),
+            ('%s-att-imm' % tag, 'add eax, {0}', False, 'addl $%s, %%eax' % (spec % 0), True, None),
+            ('%s-att-disp' % tag, 'mov eax, DWORD PTR [ebx+{0}]', False, 'movl %s(%%ebx), %%eax' % (spec % 0), True, None),
+        ]
     # narrower operands: sign convention modulo 2^16 / 2^8, AT&T transliteration with the w / b suffix
     for mn in ('mov', 'test'):
         P += [
